@@ -22,13 +22,14 @@ package control // import "pault.ag/go/debian/control"
 
 import (
 	"bytes"
+	"crypto/md5"
+	"crypto/sha1"
 	"crypto/sha256"
 	"crypto/sha512"
 	"encoding/hex"
 	"fmt"
 	"hash"
 	"io"
-	"log"
 	"path/filepath"
 	"strconv"
 	"strings"
@@ -95,12 +96,16 @@ func (v *verifier) Close() error {
 func (c *FileHash) Verifier() (io.WriteCloser, error) {
 	var h hash.Hash
 	switch c.Algorithm {
+	case "md5":
+		h = md5.New()
+	case "sha1":
+		h = sha1.New()
 	case "sha256":
 		h = sha256.New()
 	case "sha512":
 		h = sha512.New()
 	default:
-		log.Fatalf("BUG: FileHash.Verifier not updated after release.Indices()")
+		return nil, fmt.Errorf("no verifier for hash algorithm '%s'", c.Algorithm)
 	}
 	sum, err := hex.DecodeString(c.Hash)
 	if err != nil {
